@@ -28,7 +28,7 @@ from antlr4 import *
 from .aggregator import DocumentationAggregator
 from cminx import Settings
 from .documentation_types import DocumentationType, ModuleDocumentation
-from .parser import ParserErrorListener
+from .parser import ParserErrorListener, CMakeSyntaxError
 from .parser.CMakeLexer import CMakeLexer
 from .parser.CMakeParser import CMakeParser
 from .rstwriter import RSTWriter, Directive
@@ -115,7 +115,14 @@ class Documenter(object):
 
         # Parse and lex the file, then walk the tree and aggregate the
         # documented commands
-        self.walker.walk(self.aggregator, self.parser.cmake_file())
+        tree = self.parser.cmake_file()
+
+        # An exception raised by the error listener inside a nested rule is caught
+        # again by the error recovery of the enclosing rule, so also check the count
+        if self.parser.getNumberOfSyntaxErrors() > 0:
+            raise CMakeSyntaxError(f"{self.parser.getNumberOfSyntaxErrors()} syntax error(s) while parsing the CMake file")
+
+        self.walker.walk(self.aggregator, tree)
 
         # All the documented commands are now stored in aggregator.documented,
         # each element is a namedtuple representing the type of documentation it is.
